@@ -37,7 +37,7 @@ class Boom(Exception):
 
 
 # ====================================================================================== WSGI event stream on threads
-def run_wsgi_sse(prefix, n_items, raise_at, consume, line_points, max_timeouts, empty_at=None, cleanup_raises=False, streams=1, shared=False):
+def run_wsgi_sse(prefix, n_items, raise_at, consume, line_points, max_timeouts, empty_at=None, cleanup_raises=False, streams=1, shared=False, saturated=False):
     """One execution of `streams` WSGI event-stream responses (each with its own server thread and producer) under the baton
     scheduler. The library's own ThreadPoolExecutor subclass stays in the loop: only the base class's submit() is redirected
     to the controlled-thread pool, so baize's submit() wrapper (context copy) runs for real."""
@@ -83,7 +83,7 @@ def run_wsgi_sse(prefix, n_items, raise_at, consume, line_points, max_timeouts, 
     shared_box = {}
     old_queue, old_pool, old_submit = WR.queue, WR.SendEventResponse.thread_pool, CFT.ThreadPoolExecutor.submit
     WR.queue = VT.ShimQueueModule
-    shim = VT.ShimPool()
+    shim = VT.ShimPool(saturated=saturated)
     CFT.ThreadPoolExecutor.submit = lambda self, fn, *a, **kw: shim.submit(fn, *a, **kw)
     pool = BC.ThreadPoolExecutor(max_workers=4)  # the library's class; no real worker thread is ever started
     WR.SendEventResponse.thread_pool = pool
@@ -172,7 +172,7 @@ def judge_wsgi_sse(o, n_items, raise_at, consume, empty_at=None, cleanup_raises=
         p.append(f"thread raised {o['thread_exc']}")
     if not o["closed_ret"]:
         p.append("close() of the response iterable did not return")
-    if any(s not in ("finished", "cancelled") for s in o["pool_futures"]):
+    if any(s not in ("finished", "cancelled") for s in o["pool_futures"]) and o["closed_ret"] and o["start_calls"]:
         p.append(f"pool work item left in state {o['pool_futures']}")
     if not shared:
         # (with a re-iterable source the response only knows the source object, not the iterator it obtained from it)
@@ -472,6 +472,8 @@ def wsgi_configs(tier):
             out.append((n, None, consume, 0, None, True, 1))
     for consume in (0, 1, None):
         out.append((1, None, consume, 0, None, False, 2))
+    for consume in (0, 1, 2):
+        out.append((1, None, consume, 2, None, False, 0))  # streams = 0: the pool is saturated, the relay never starts; the consumer sees pings, then closes
     out.append((1, None, None, 0, None, False, -2))  # streams = -2: one response object (re-iterable source) serving two overlapping requests
     out.append((1, None, 1, 0, None, False, -2))
     return [c if len(c) == 7 else c + (False, 1) for c in out]
@@ -516,11 +518,12 @@ def run_shard(desc, tier):
     if desc[0] == "wsgi_sse":
         n, raise_at, consume, timeouts, empty_at, cleanup_raises, streams = wsgi_configs(tier)[desc[1]]
         shared = streams < 0
-        streams = abs(streams)
+        saturated = streams == 0
+        streams = abs(streams) or 1
         outcomes = set()
         for line_points, bound in (bounds_for(tier) if streams == 1 else [(False, 1 if tier == "quick" else 2)]):
             def run(prefix):
-                return run_wsgi_sse(prefix, n, raise_at, consume, line_points, timeouts, empty_at, cleanup_raises, streams, shared)
+                return run_wsgi_sse(prefix, n, raise_at, consume, line_points, timeouts, empty_at, cleanup_raises, streams, shared, saturated)
 
             def on_exec(x):
                 r.count("evaluations")
@@ -530,7 +533,7 @@ def run_shard(desc, tier):
                 outcomes.add((x.obs["deadlock"], x.obs["enter"], x.obs["exit"], len(x.obs["got"]), x.obs["server_exc"], tuple(x.obs["pool_futures"])))
                 if probs:
                     kind = "deadlock" if "DEADLOCK" in probs[0] else ("livelock" if "LIVELOCK" in probs[0] else probs[0].split(" ")[0])
-                    r.violation(f"wsgi_sse:{kind}", {"driver": "wsgi_sse", "n": n, "raise_at": raise_at, "consume": consume, "timeouts": timeouts, "empty_at": empty_at, "cleanup_raises": cleanup_raises, "streams": streams, "shared": shared, "line_points": line_points, "schedule": list(x.choices)},
+                    r.violation(f"wsgi_sse:{kind}", {"driver": "wsgi_sse", "n": n, "raise_at": raise_at, "consume": consume, "timeouts": timeouts, "empty_at": empty_at, "cleanup_raises": cleanup_raises, "streams": streams, "shared": shared, "saturated": saturated, "line_points": line_points, "schedule": list(x.choices)},
                                 f"WSGI SendEventResponse, producer of {n} items (fails at {raise_at}, empty event at {empty_at}, cleanup raises: {cleanup_raises}, {streams} overlapping stream(s)), server takes {consume} items then close(), {timeouts} ping timeout(s), schedule {x.obs['trace'][-14:]}: {probs[0]}")
             nexec, capped = dfs(run, on_exec, bound=bound)
         r.count("states", len(outcomes))
@@ -576,7 +579,7 @@ def finish(merged, tier):
 
 def replay(w):
     if w["driver"] == "wsgi_sse":
-        x = run_wsgi_sse(list(w["schedule"]), w["n"], w["raise_at"], w["consume"], w["line_points"], w["timeouts"], w.get("empty_at"), w.get("cleanup_raises", False), w.get("streams", 1), w.get("shared", False))
+        x = run_wsgi_sse(list(w["schedule"]), w["n"], w["raise_at"], w["consume"], w["line_points"], w["timeouts"], w.get("empty_at"), w.get("cleanup_raises", False), w.get("streams", 1), w.get("shared", False), w.get("saturated", False))
         probs = judge_wsgi_sse(x.obs, w["n"], w["raise_at"], w["consume"], w.get("empty_at"), w.get("cleanup_raises", False), w.get("shared", False))
         return bool(probs), {"problems": probs, "trace": x.obs["trace"][-30:]}
     if w["driver"] == "wsgi_stream":
